@@ -32,11 +32,9 @@ def float_lin_consts():
     out.append(("flin_min_close_bits", f64bits(v), "linear.rs FloatLinEq: min_close = |new_min-min| < %s" % v))
     v = same(r"\(l - u\)\.abs\(\) < " + F, "FloatLinNe fixed threshold", 2)
     out.append(("flin_ne_fixed_bits", f64bits(v), "linear.rs FloatLinNe / compute_fixed_sum_float: (l - u).abs() < %s" % v))
-    v = same(r"\(fixed_sum - (?:self\.)?constant\)\.abs\(\) < " + F, "FloatLinNe equality threshold", 2)
+    v = same(r"\((?:fixed_)?sum - (?:self\.)?constant\)\.abs\(\) < " + F, "FloatLinNe equality threshold (scan and leaf check)", 4)
     out.append(("flin_ne_eq_bits", f64bits(v), "linear.rs FloatLinNe: (fixed_sum - constant).abs() < %s" % v))
-    a = same(r"Val::ValF\(f\) => Val::ValF\(f \+ " + F + r"\)", "exclude_value upward delta", 1)
-    b = same(r"Val::ValF\(f\) => Val::ValF\(f - " + F + r"\)", "exclude_value downward delta", 1)
-    if a != b:
-        sys.stderr.write("gen_consts: exclude_value deltas differ: %r %r\n" % (a, b)); sys.exit(1)
-    out.append(("excl_delta_bits", f64bits(a), "linear.rs exclude_value: f +- %s" % a))
+    # exclude_value moves a float bound by exclusion_delta: one step of a float variable, this literal for an integer one
+    a = same(r"Var::VarI\(_\) => " + F + r",", "exclude_value delta for an integer variable (exclusion_delta)", 1)
+    out.append(("excl_delta_bits", f64bits(a), "linear.rs exclusion_delta: f +- %s on an integer variable (interval.step on a float one)" % a))
     return out
